@@ -222,13 +222,19 @@ def main():
             cout.append('(* %s: not found as a plain #define in %s *)' % (name, f))
     for name, f, rx in [('MaxDataLen', 'N2kMsg.h', r'static\s+const\s+int\s+MaxDataLen\s*=\s*(\d+)\s*;'),
                         ('MaxReadFramesOnParse', 'NMEA2000.cpp', r'static\s+const\s+int\s+MaxReadFramesOnParse\s*=\s*(\d+)\s*;'),
-                        ('MaxActisenseMsgBuf', 'N2kMsg.cpp', r'#define\s+MaxActisenseMsgBuf\s+(\d+)'),
+                        ('MaxActisenseMsgBuf', 'N2kMsg.cpp', r'#define\s+MaxActisenseMsgBuf\s+([^\n]+)'),
                         ('DefaultHeartbeatInterval', 'NMEA2000.h', r'#define\s+DefaultHeartbeatInterval\s+(\d+)')]:
         p = os.path.join(REPO, 'src', f)
         txt = strip_comments(open(p).read()) if os.path.exists(p) else ''
         m = re.search(rx, txt)
-        if m:
-            cout.append('Definition c_%s : Z := %s.' % (name, m.group(1)))
+        val = m.group(1).strip() if m else None
+        if val is not None and not val.isdigit():
+            # a constant expression over literals and tN2kMsg::MaxDataLen: evaluated here
+            mm = re.search(r'static\s+const\s+int\s+MaxDataLen\s*=\s*(\d+)\s*;', strip_comments(open(os.path.join(REPO, 'src', 'N2kMsg.h')).read()))
+            e = val.replace('tN2kMsg::MaxDataLen', mm.group(1) if mm else 'X')
+            val = str(eval(e)) if re.fullmatch(r'[\d\s()+*\-]+', e) else None
+        if val is not None:
+            cout.append('Definition c_%s : Z := %s.' % (name, val))
         else:
             cprob.append(name)
             cout.append('(* %s: pattern not found in %s *)' % (name, f))
